@@ -102,7 +102,7 @@ func (ex *Exec) ensureInit(t *Thread, pkg *ssa.Package) {
 		return
 	}
 	ex.initDone[pkg] = true
-	if !ex.prog.interpretable(pkg.Pkg.Path()) {
+	if !ex.prog.interpretable(pkg.Pkg.Path()) && !initOnly[pkg.Pkg.Path()] {
 		return
 	}
 	// allocate all globals first
